@@ -171,6 +171,30 @@ var bodyFiles = map[string]*facts.BodyFile{
 				}},
 		},
 	},
+	// C04: driver/network/acquirepriv.go
+	"BodiesPriv.lean": {
+		Imports:   []string{"ScrapliModel.Priv"},
+		Namespace: "Scrapli.Gen.Bodies.Priv",
+		Fns: []*facts.FnSpec{
+			{Dir: "driver/network", Recv: "Driver", Name: "processAcquirePriv", Lean: "processAcquirePriv",
+				Doc: "`L` = `d.PrivilegeLevels` (association list keyed by `Name`), `possible` / `detErr` = what " +
+					"`determineCurrentPriv(currentPrompt)` returned, `path cur tgt` = `buildPrivChangeMap(cur, tgt, nil)`; " +
+					"state: `cache` = `d.CurrentPriv`. A nil map entry dereferenced or `mapTo[1]` out of range is the `panic` fault.",
+				Binders:    "(L : Priv.Levels) (possible : List Bytes) (detErr : Go.Error) (path : Bytes → Bytes → List Bytes)",
+				BinderArgs: "L possible detErr path",
+				Fail:       &facts.FailMode{Ty: "Priv.Err", Panic: ".error Priv.Err.panic"},
+				Funcs: map[string]facts.LibFn{
+					"recv.determineCurrentPriv": {AnyArgs: true, Ret: []string{"list", "error"}, Tmpl: "(possible, detErr)"},
+					"util.StringSliceContains":  {Args: []string{"list", "bytes"}, Ret: []string{"bool"}, Tmpl: "(List.contains %0 %1)"},
+					"recv.buildPrivChangeMap":   {Args: []string{"bytes", "bytes", "list"}, Ret: []string{"list"}, Tmpl: "(path %0 %1)"},
+					"recv.PrivilegeLevels[_].Name": {Args: []string{"bytes"}, Ret: []string{"bytes"},
+						Tmpl: "(((Priv.find? L %0).map (·.name)).getD [])", Check: "(Priv.find? L %0).isSome"},
+					"recv.PrivilegeLevels[_].PreviousPriv": {Args: []string{"bytes"}, Ret: []string{"bytes"},
+						Tmpl: "(((Priv.find? L %0).map (·.previous)).getD [])", Check: "(Priv.find? L %0).isSome"},
+				},
+				State: []facts.StateVar{{Key: "recv.CurrentPriv", Lean: "cache", Ty: "bytes"}}},
+		},
+	},
 	// C15: transport/telnet.go
 	"BodiesTelnet.lean": {
 		Imports:   []string{"ScrapliModel.Telnet"},
